@@ -3,15 +3,18 @@
 the pipeline log /tmp/seedpipe_<cxx>.txt (tools/seed_pipeline.sh).  usage: seed_record.py <cxx> [override.json]"""
 import json, os, re, shutil, sys
 p = sys.argv[1]; P = p.upper()
-log = open('/tmp/seedpipe_%s.txt' % p).read() if os.path.exists('/tmp/seedpipe_%s.txt' % p) else ''
+LOG = os.environ.get('SEEDLOG', '/tmp/seedpipe_%s.txt' % p)
+MUT = os.environ.get('MUTDIR', '/tmp/mut-%s' % p)
+OFF = int(os.environ.get('OFFSET', '0'))
+log = open(LOG).read() if os.path.exists(LOG) else ''
 over = json.load(open(sys.argv[2])) if len(sys.argv) > 2 else {}
 blocks = re.split(r'(?m)^(?=%s-\d confirm)' % P, log)
 for blk in blocks:
     m = re.match(r'%s-(\d) confirm \| demo unpatched: (.*?) \| demo patched: (.*?) \| (.*?) \| (.*)' % P, blk)
     if not m: continue
     i, d0, d1, suite, lib = m.groups()
-    src = '/tmp/mut-%s/out/%s' % (p, i)
-    dst = '/verif/seeded/%s-%s' % (P, i)
+    src = '%s/out/%s' % (MUT, i)
+    dst = '/verif/seeded/%s-%s' % (P, int(i) + OFF)
     os.makedirs(dst + '/demo', exist_ok=True)
     shutil.copy(src + '/patch.diff', dst + '/patch.diff')
     if os.path.exists(src + '/notes.md'): shutil.copy(src + '/notes.md', dst + '/notes.md')
@@ -29,7 +32,7 @@ for blk in blocks:
     confirmed = d0.startswith('PASS') and d1.startswith('FAIL') and '617 passed, 3 failed' in suite and '31 passed' in lib
     notes = open(dst + '/notes.md').read() if os.path.exists(dst + '/notes.md') else ''
     meta = {
-        "property": P, "seed": "%s-%s" % (P, i),
+        "property": P, "seed": "%s-%s" % (P, int(i) + OFF),
         "breaks": "see notes.md (written by the independent sub-agent that produced the change)",
         "needs_to_manifest": (re.search(r'(?is)(needs?|manifest)[^\n]*\n(.*?)(\n#|\Z)', notes).group(0)[:900] if re.search(r'(?i)(need|manifest)', notes) else notes[:600]),
         "confirmed_by_lead": {
@@ -46,4 +49,4 @@ for blk in blocks:
     }
     meta.update(over.get(i, {}))
     json.dump(meta, open(dst + '/meta.json', 'w'), indent=1)
-    print(P, i, 'confirmed' if confirmed else 'NOT-CONFIRMED', 'caught' if caught else 'MISSED', 'input' if with_input else 'no-input')
+    print(P, int(i) + OFF, 'confirmed' if confirmed else 'NOT-CONFIRMED', 'caught' if caught else 'MISSED', 'input' if with_input else 'no-input')
